@@ -63,6 +63,8 @@ pub(crate) fn op2<I: Interrupt>(op: &str, a: &Raw, b: &Raw, int: &I) -> Result<V
 			let (q, r) = e(x.divmod(&y, int))?;
 			vec![to_raw(&q), to_raw(&r)]
 		}
+		"div" => vec![to_raw(&e(x.div(&y, int))?)],
+		"rem" => vec![to_raw(&e(x.rem(&y, int))?)],
 		"cmp" => vec![(true, vec![x.cmp(&y) as i8 as i64 as u64])],
 		"gcd" => vec![to_raw(&e(BigUint::gcd(x, y, int))?)],
 		"pow" => vec![to_raw(&e(BigUint::pow(&x, &y, int))?)],
